@@ -29,3 +29,26 @@ package vgirpc
 //@ func (*callStateCache).put
 //@   property C15
 //@   at call "(time.Time).Add" assert [expiry] arg0 == unixTime(createdAt, 0) && arg1 == c.ttl
+
+// ---- C14: a continuation token only resumes the stream method that minted it ----
+//
+// mintedFor(d, method): the cursor d was minted by a call to `method`. Nothing in the token
+// carries the method today, so nothing can establish it: the three continuation dispatches and
+// the rehydrate hook each demand it (recorded finding until the tokens are bound to a method).
+// Independently of that, no token content may abort the HTTP exchange with a panic: every
+// dynamic-type assertion on the deserialized state must be guarded.
+//
+//@ ghost pred mintedFor(d *cursorTokenData, method string)
+//@ func (*HttpServer).handleStreamExchange
+//@   property C14
+//@   nopanic(typeassert)
+//@   at call "field:HttpServer.rehydrateFunc" assert [bound_rehydrate] mintedFor(tokenData, method)
+//@   at call (*HttpServer).handleStreamCancel assert [bound_cancel] mintedFor(tokenData, method)
+//@   at call (*HttpServer).handleProducerContinuation assert [bound_producer] mintedFor(tokenData, method)
+//@   at call (*HttpServer).handleExchangeCall assert [bound_exchange] mintedFor(tokenData, method)
+//@   # what IS proved: the state handed to a continuation is the authenticated cursor's state, and
+//@   # it goes to the continuation kind the route's method declares (dynamic methods: the kind the
+//@   # state itself implements)
+//@   at call (*HttpServer).handleProducerContinuation assert [state_producer] arg4 == tokenData.State && isProducer && arg11 == tokenData.CallID
+//@   at call (*HttpServer).handleExchangeCall assert [state_exchange] arg6 == tokenData.State && !isProducer && arg13 == tokenData.CallID
+//@   at call (*HttpServer).handleStreamCancel assert [state_cancel] arg4 == tokenData.State && cancelled
